@@ -3,6 +3,7 @@ package scen
 import (
 	"cosmossdk.io/math"
 	sdk "github.com/cosmos/cosmos-sdk/types"
+	ammtypes "github.com/elys-network/elys/x/amm/types"
 	lpkeeper "github.com/elys-network/elys/x/leveragelp/keeper"
 	lptypes "github.com/elys-network/elys/x/leveragelp/types"
 	perptypes "github.com/elys-network/elys/x/perpetual/types"
@@ -235,6 +236,22 @@ func init() {
 			NewChaos(c, w, g).Run(n-4*seg, g.StdDt)
 		} else {
 			g.Free(n-4*seg, g.StdDt)
+		}
+		// every fourth instance: governance switches the leveraged oracle pool itself to constant-product
+		// mode while positions are open on it (validation accepts that), traffic goes on, it is switched
+		// back
+		if c.Job.Index%4 == 1 && !w.Dead {
+			if p1, ok := w.App.AmmKeeper.GetPool(w.ReadCtx(), 1); ok {
+				pp := p1.PoolParams
+				pp.UseOracle = false
+				if w.GovExec("pool 1 -> constant product", &ammtypes.MsgUpdatePoolParams{Authority: w.Gov, PoolId: 1, PoolParams: pp}) {
+					c.Ev("leveraged_pool_switched_to_constant_product")
+				}
+				g.Free(12, g.StdDt)
+				pp.UseOracle = true
+				w.GovExec("pool 1 -> oracle", &ammtypes.MsgUpdatePoolParams{Authority: w.Gov, PoolId: 1, PoolParams: pp})
+				g.Free(12, g.StdDt)
+			}
 		}
 		// every third instance ends with the custody-exhaustion schedules of the faults catalogue
 		// (a year of one block by governance, then owners close parts of their positions)
